@@ -331,6 +331,12 @@ def enumerate_cases(tier, seed):
     for su in (False, True):
         for cwd in ("cwd", "/"):
             yield {"mode": "startup-chroot-refused", "setuid": su, "cwd": cwd}
+    # plain requests for the directories whose content (gophermap lines, link-file blocks) points outside, in every form
+    for d in ("/gm", "/lk", "/lk2", "/"):
+        for form in FORMS:
+            for full in (False, True):
+                yield {"full": full, "cwd": "cwd" if full else "/", "worldB": "absent", "form": form, "noslash": False, "sel": d, "inj": "",
+                       "style": "none", "layers": 0, "enc_all": False, "lower_hex": False}
 
 
 def _check_startup(case, ctx):
